@@ -39,6 +39,11 @@ fn main() {
         "i64" => signed!(i64, t),
         "i128" => signed!(i128, t),
         "isize" => signed!(isize, t),
+        "i8" => signed!(i8, t),
+        "i16" => signed!(i16, t),
+        "u8" => common!(u8, t).expect("unknown op"),
+        "u16" => common!(u16, t).expect("unknown op"),
+        "usize" => common!(usize, t).expect("unknown op"),
         "u32" => common!(u32, t).expect("unknown op"),
         "u64" => common!(u64, t).expect("unknown op"),
         "u128" => common!(u128, t).expect("unknown op"),
